@@ -13,6 +13,41 @@ CHECKS = {
         note="trusted base: mc/evm_ref.py (self-tested against z3 bit-vectors and Keccak vectors); equivalence modulo "
              "gas metering; MSIZE/PC excluded; greedy back-end (Max-SMT path through the stand-in solver in C06/C07)",
         technique="bounded-exhaustive enumeration of programs x configurations x states against a reference interpreter"),
+    "C02": dict(
+        level="model_checking", engine="E1+E2+E4", ref="DESIGN.md section 4 C02",
+        text="the schedule space of every specification is explored completely: all linearizations of its memory/"
+             "storage operations compatible with the declared dependencies and data flow are evaluated (specification "
+             "evaluator on the reference EVM) on an aliasing-forcing state domain and compared with the run of the block",
+        note="states = schedules, transitions = (schedule, machine state) evaluations; every schedule is executed on "
+             "the specification emitted by the real front-end (no separate model to keep in sync); trusted base: "
+             "mc/spec_eval.py + mc/evm_ref.py",
+        technique="exhaustive enumeration of schedules (linearizations) x states against a reference interpreter"),
+    "C03": dict(
+        level="exploration", engine="E1+E2+E4", ref="DESIGN.md section 4 C03",
+        text="every rule's left-hand side is instantiated with operands from {variable, same variable, other variable, "
+             "12 boundary constants}, pairs/chains for context rules, under each criterion with rules on and off; the "
+             "produced specification is evaluated on every state of the boundary domain and compared with the EVM run "
+             "of the block; constants in specifications must be 256-bit words; evidence lists which rules fired",
+        note="trusted base: mc/spec_eval.py + mc/evm_ref.py; the size-gating clause (min bytes) is covered by C08's "
+             "byte accounting rather than by a separate search",
+        technique="bounded-exhaustive instantiation of rewrite-rule left-hand sides x boundary operand values against "
+                  "a reference interpreter"),
+    "C04": dict(
+        level="exploration", engine="E1+E3", ref="DESIGN.md section 4 C04",
+        text="greedy_from_json is run on every specification produced by the front-end for the enumerated blocks "
+             "(three split policies) and on hand-enumerated and deep-stack specifications; each sequence reported as "
+             "success is executed on an independent symbolic stack machine that checks underflow, DUP/SWAP depth, "
+             "operands, stores once, declared order and final stack",
+        note="trusted base: mc/sym_ref.py (~100 lines); error=1 (greedy gave up) is not a violation",
+        technique="bounded-exhaustive enumeration of specifications, each result replayed on a reference stack machine"),
+    "C05": dict(
+        level="exploration", engine="E1+E2", ref="DESIGN.md section 4 C05",
+        text="for every enumerated block, ALL single-point semantic mutations are generated; each pair the reference "
+             "EVM distinguishes on some state of the domain is submitted to compare_asm_block_asm_format, which must "
+             "not answer equal; compare(B,B) must answer equal without raising",
+        note="trusted base: mc/evm_ref.py; the forves adapter rendering is not yet checked",
+        technique="bounded-exhaustive enumeration of block pairs (all single-point mutants) with a reference-"
+                  "interpreter distinguishability oracle"),
 }
 
 NOT_YET = "check not built yet in this session (planned in DESIGN.md section 4); nothing is claimed for it"
